@@ -8,6 +8,7 @@ import (
 	"net/http"
 	"os"
 	"path/filepath"
+	"strings"
 	"sync"
 	"time"
 
@@ -333,4 +334,201 @@ func releaseDuringCommit(c *common.Ctx, r *common.Rand) error {
 		p.Store.DB(dbName).ReleaseHaltLock(context.Background(), id)
 	}
 	return nil
+}
+
+// acquireWhileBehind: the replica is one transaction behind the primary when it asks for the halt lock (its own write
+// lock is busy for a moment, so the stream cannot apply). The grant names the primary's position; the replica catches up
+// to it and is then the holder: it can write, its transaction is forwarded and acknowledged.
+func acquireWhileBehind(c *common.Ctx, r *common.Rand) error {
+	dir, err := os.MkdirTemp(c.OutDir, "c13b-")
+	if err != nil {
+		return err
+	}
+	defer os.RemoveAll(dir)
+	clu := cluster.New(dir, 3*time.Second)
+	clu.Opts = func(name string, s *litefs.Store) {
+		s.HaltAcquireTimeout = 3 * time.Second
+		s.HaltLockTTL = 5 * time.Minute
+		s.HaltLockMonitorInterval = time.Hour
+	}
+	defer clu.Close()
+	p, err := clu.Start("p", true)
+	if err != nil {
+		return err
+	}
+	if clu.WaitPrimary(5*time.Second) == nil {
+		return fmt.Errorf("no primary")
+	}
+	rn, err := clu.Start("r", false)
+	if err != nil {
+		return err
+	}
+	if err := commitOn(c, r, p, 2); err != nil {
+		return err
+	}
+	pt, pc := pos(p)
+	if !cluster.WaitPos(rn, dbName, pt, pc, 10*time.Second) {
+		return fmt.Errorf("replica did not catch up")
+	}
+	rdb, pdb := rn.Store.DB(dbName), p.Store.DB(dbName)
+	guard, err := rdb.AcquireWriteLock(context.Background(), nil)
+	if err != nil {
+		return err
+	}
+	if err := commitOn(c, r, p, 1); err != nil {
+		guard.Unlock()
+		return err
+	}
+	pt, pc = pos(p)
+	go func() {
+		time.Sleep(250 * time.Millisecond)
+		guard.Unlock()
+	}()
+	c.Evaluations++
+	c.Distinct("acquire-while-behind")
+	rep := map[string]any{"kind": "halt-acquire-while-behind"}
+	hl, err := rdb.AcquireRemoteHaltLock(context.Background(), 61)
+	defer func() {
+		if id := pdb.VerifHaltLockID(); id != 0 {
+			pdb.ReleaseHaltLock(context.Background(), id)
+		}
+	}()
+	if err != nil {
+		// refused: nobody holds anything afterwards
+		if id := pdb.VerifHaltLockID(); id != 0 || rdb.HasRemoteHaltLock() {
+			c.Violate("C13:acquire-while-behind:half", fmt.Sprintf("the request failed (%v) but the primary holds lock %d / the replica has a lock: %v", err, id, rdb.HasRemoteHaltLock()), rep)
+		}
+		return nil
+	}
+	rt, rc := pos(rn)
+	{
+		// the same on the model: the primary's history by checksum, R one transaction behind, lock 61
+		infos, _ := lfs.ListLTX(filepath.Dir(pdb.DatabasePath()))
+		setup := ""
+		for i, f := range infos {
+			if i > 0 {
+				setup += "; "
+			}
+			setup += fmt.Sprint(f.Post)
+		}
+		holder := int64(0)
+		if rdb.HasRemoteHaltLock() {
+			holder = hl.ID
+		}
+		cf := c.Cases("cases_c13b", "Require Import LF.Model.Halt.\nLocal Open Scope N_scope.", "list N * nat * N * list N", "mismatches_behind")
+		cf.Add(fmt.Sprintf("([%s], 1%%nat, 61, [1; %d; %d; %d; %d; %d; %d])", setup, pt, pc, rt, rc, pdb.VerifHaltLockID(), holder), rep)
+	}
+	if rt != pt || rc != pc {
+		c.Violate("C13:acquire-while-behind:position", fmt.Sprintf("the halt lock was granted at (%d,%016x) and returned while the replica is at (%d,%016x)", pt, pc, rt, rc), rep)
+		return nil
+	}
+	if !rdb.HasRemoteHaltLock() || !rdb.Writeable() || hl == nil {
+		c.Violate("C13:acquire-while-behind:not-holder", fmt.Sprintf("the request for halt lock 61 returned success at the primary's position, the primary is halted for it (lock %d), but the replica does not hold it (has lock: %v, writeable: %v)", pdb.VerifHaltLockID(), rdb.HasRemoteHaltLock(), rdb.Writeable()), rep)
+		return nil
+	}
+	im, _ := lfs.ReadImage(filepath.Dir(rdb.DatabasePath()))
+	h := hist.NewOn(c, r.Fork(), hist.Config{PageSize: 512}, rn.Store, rn.Exits, dbName, im, uint64(rdb.Pos().TXID), false)
+	ob := h.Exec(hist.Step{Op: "rtx", Writes: map[uint32]uint64{1: 616161}, NewSize: uint32(len(im.Pages))})
+	rt, rc = pos(rn)
+	pt2, pc2 := pos(p)
+	c.Evaluations++
+	if ob.Err != "" || !ob.Captured || rt != pt+1 || rt != pt2 || rc != pc2 {
+		c.Violate("C13:acquire-while-behind:write", fmt.Sprintf("the holder's transaction: err=%q, holder at (%d,%016x), primary at (%d,%016x), lock granted at %d", ob.Err, rt, rc, pt2, pc2, pt), rep)
+	}
+	_ = rdb.ReleaseRemoteHaltLock(context.Background(), 61)
+	return nil
+}
+
+// holderCommitsAfterTTL: the holder keeps the lock past its TTL (by the real clock: the primary's monitor drops the lock,
+// the holder's own copy says it has run out) and then commits. "When the lock ... expires ... the former holder can no
+// longer publish": the commit is refused, nothing moves on either node - in particular the holder does not publish the
+// transaction on its own.
+func holderCommitsAfterTTL(c *common.Ctx, r *common.Rand, jmode int) error {
+	dir, err := os.MkdirTemp(c.OutDir, "c13t-")
+	if err != nil {
+		return err
+	}
+	defer os.RemoveAll(dir)
+	const ttl = 300 * time.Millisecond
+	clu := cluster.New(dir, 3*time.Second)
+	clu.Opts = func(name string, s *litefs.Store) {
+		s.HaltAcquireTimeout = 2 * time.Second
+		s.HaltLockTTL = ttl
+		s.HaltLockMonitorInterval = 30 * time.Millisecond
+	}
+	defer clu.Close()
+	p, err := clu.Start("p", true)
+	if err != nil {
+		return err
+	}
+	if clu.WaitPrimary(5*time.Second) == nil {
+		return fmt.Errorf("no primary")
+	}
+	rn, err := clu.Start("r", false)
+	if err != nil {
+		return err
+	}
+	if err := commitOn(c, r, p, 2); err != nil {
+		return err
+	}
+	pt, pc := pos(p)
+	if !cluster.WaitPos(rn, dbName, pt, pc, 10*time.Second) {
+		return fmt.Errorf("replica did not catch up")
+	}
+	pdb, rdb := p.Store.DB(dbName), rn.Store.DB(dbName)
+	if _, err := rdb.AcquireRemoteHaltLock(context.Background(), 91); err != nil {
+		return fmt.Errorf("halt: %v", err)
+	}
+	deadline := time.Now().Add(ttl + 2*time.Second)
+	for pdb.VerifHaltLockID() != 0 && time.Now().Before(deadline) {
+		time.Sleep(5 * time.Millisecond)
+	}
+	time.Sleep(ttl / 2) // past the TTL on the holder's own clock as well
+	c.Evaluations++
+	c.Distinct(fmt.Sprintf("holder-commits-after-ttl:%d", jmode))
+	rep := map[string]any{"kind": "halt-holder-commits-after-ttl", "ttl_ms": ttl.Milliseconds(), "journal_mode": jmode}
+	if id := pdb.VerifHaltLockID(); id != 0 {
+		c.Violate("C13:after-ttl:not-expired", fmt.Sprintf("halt lock %d (TTL %s) is still held on the primary well past its TTL", id, ttl), rep)
+		return nil
+	}
+	rt0, rc0 := pos(rn)
+	l0 := listLTX(rn)
+	im, _ := lfs.ReadImage(filepath.Dir(rdb.DatabasePath()))
+	h := hist.NewOn(c, r.Fork(), hist.Config{PageSize: 512}, rn.Store, rn.Exits, dbName, im, uint64(rdb.Pos().TXID), false)
+	h.Pager.RollbackOnCommitError = true
+	ob := h.Exec(hist.Step{Op: "rtx", Writes: map[uint32]uint64{2: 919191}, NewSize: uint32(len(im.Pages)), JMode: jmode})
+	time.Sleep(50 * time.Millisecond)
+	rt, rc := pos(rn)
+	pt2, pc2 := pos(p)
+	rep["commit_answer"] = ob.Err
+	if pt2 != pt || pc2 != pc {
+		c.Violate("C13:after-ttl:primary-moved", fmt.Sprintf("the lock had expired; the former holder's commit moved the primary from (%d,%016x) to (%d,%016x)", pt, pc, pt2, pc2), rep)
+		return nil
+	}
+	if rt != rt0 || rc != rc0 || listLTX(rn) != l0 || (ob.Err == "" && ob.Panic == "") {
+		c.Violate("C13:after-ttl:holder-published", fmt.Sprintf("the lock had expired (TTL %s) when the former holder committed: the commit answered %q, the holder went from (%d,%016x) to (%d,%016x), its log from [%s] to [%s]; the primary stays at (%d,%016x)", ttl, ob.Err, rt0, rc0, rt, rc, l0, listLTX(rn), pt2, pc2), rep)
+		return nil
+	}
+	// the primary writes again and the former holder follows
+	if err := commitOn(c, r, p, 1); err != nil {
+		c.Violate("C13:after-ttl:primary-cannot-write", "after the lock expired the primary cannot commit: "+err.Error(), rep)
+		return nil
+	}
+	pt, pc = pos(p)
+	if !cluster.WaitPos(rn, dbName, pt, pc, 8*time.Second) {
+		rt, rc = pos(rn)
+		c.Violate("C13:after-ttl:converge", fmt.Sprintf("the former holder stays at (%d,%016x) while the primary is at (%d,%016x)", rt, rc, pt, pc), rep)
+	}
+	return nil
+}
+
+func listLTX(n *cluster.Node) string {
+	ents, _ := os.ReadDir(n.Store.DB(dbName).LTXDir())
+	s := ""
+	for _, e := range ents {
+		if strings.HasSuffix(e.Name(), ".ltx") { // a refused commit leaves its temporary file until the next one
+			s += e.Name() + ","
+		}
+	}
+	return s
 }
